@@ -242,6 +242,56 @@ def duplicate_lines(res):
         shutil.rmtree(tmp, ignore_errors=True)
 
 
+FIRST_LINE_HELPER = "def double(x): return x + x\ndef twice(x):\n    return double(double(x))\n"
+FIRST_LINE_MAIN = ("from nada_dsl import *; P = Party(name='P')\nfrom helpers import twice, double\n\n\ndef nada_main():\n"
+                   "    a = SecretInteger(Input(name='a', party=P))\n    b = twice(a)\n    c = double(b) * a\n    return [Output(c, 'o', P)]\n")
+
+
+def first_lines(res):
+    """elements created on the *first* line of a file (offset 0 is that line's correct offset): a helper whose line 1 holds the
+    statement that creates every Addition, a party declared on line 1 of the program"""
+    import json
+    import os
+    import shutil
+    import subprocess
+    import sys
+    import tempfile
+    from ..oracle import srcref
+    tmp = tempfile.mkdtemp(prefix="nvc19fl")
+    try:
+        for name, text in (("main.py", FIRST_LINE_MAIN), ("helpers.py", FIRST_LINE_HELPER)):
+            with open(os.path.join(tmp, name), "w", encoding="utf-8") as f:
+                f.write(text)
+        env = dict(os.environ, PYTHONPATH=core.REPO + os.pathsep + os.path.join(core.VERIF, "harness"), PYTHONDONTWRITEBYTECODE="1")
+        p = subprocess.run([sys.executable, "-m", "nv.real.fresh_hist", "script", os.path.join(tmp, "main.py")], cwd=tmp, env=env,
+                           capture_output=True, text=True, timeout=120)
+        try:
+            out = json.loads(p.stdout)[0]
+        except (ValueError, IndexError):
+            raise core.Infra(f"fresh_hist failed: {(p.stderr or p.stdout)[-300:]}")
+        if "mir" not in out:
+            res.violation({"property": "C19", "kind": "first-line", "text": str(out.get("msg"))}, f"program with statements on line 1 does not compile: {out.get('msg')}")
+            return 0
+        mir = out["mir"]
+        files = {"main.py": FIRST_LINE_MAIN, "helpers.py": FIRST_LINE_HELPER}
+        bad = srcref.check(mir, files, {}, {("party", "P"): ("main.py", 1)})[:2]
+        refs = mir.get("source_refs", [])
+        n = 0
+        for k, op in mir.get("operations", {}).items():
+            for name, body in op.items():
+                i = body.get("source_ref_index")
+                if name == "Addition" and isinstance(i, int) and 0 <= i < len(refs):
+                    n += 1
+                    if (refs[i].get("file"), refs[i].get("lineno")) != ("helpers.py", 1):
+                        bad.append(("wrong-line", f"operation Addition#{k}: created by the statement at helpers.py:1 ('def double(x): return x + x'), "
+                                                  f"the reference says {refs[i].get('file')}:{refs[i].get('lineno')}"))
+        for kind, t in bad[:3]:
+            res.violation({"property": "C19", "kind": "first-line", "check": kind, "text": t, "files": files}, f"statements on the first line of a file: {t}"[:400])
+        return n
+    finally:
+        shutil.rmtree(tmp, ignore_errors=True)
+
+
 def intern_correspondence(res, tier):
     """Tie of `Runtime.internAll` (Lean) to `SourceRef.to_index`: during every compilation of a stream of generated programs
     (several compilations per process, several per program) the calls of `to_index` are recorded — the reference asked for and
@@ -332,6 +382,7 @@ def run(res, tier):
     mir_stats = whole_mirs(res, tier)
     sb_stats = same_basename_sequences(res, tier)
     intern_stats = intern_correspondence(res, tier)
+    first_line_ops = first_lines(res)
     evals += mir_stats["elements_checked"]
     reset_globals()
     # 3. line arithmetic: model (Lean lineInfo) vs real try_get_line_info on random texts, and the
@@ -374,7 +425,7 @@ def run(res, tier):
                 f"{len(T4.static_call_sites())} syntactic back_frame() call sites must be reached), run from three file names in one "
                 "process; random texts (incl. form feeds, Unicode separators, tabs, non-ASCII) x line numbers (first, last, beyond) "
                 "through try_get_line_info vs the Lean lineInfo; non-trivial = distinct entries / (text, existing line) pairs",
-        "whole_mirs": mir_stats, "intern_correspondence": intern_stats,
+        "whole_mirs": mir_stats, "intern_correspondence": intern_stats, "first_line_operations": first_line_ops,
         "same_file_name_sequences": sb_stats,
         "catalogue_entries": len(rows), "call_sites_unreached": len(unreached), "lineinfo_disagreements": len(diffs),
         "samples": samples,
@@ -385,6 +436,18 @@ def run(res, tier):
 
 
 def replay(obj):
+    if obj.get("kind") == "first-line":
+        class _R:
+            violations = []
+
+            def violation(self, o, text):
+                self.violations.append(text)
+        r = _R()
+        first_lines(r)
+        print(r.violations or "ok")
+        if r.violations:
+            print("VIOLATION property=C19 replay=(replayed)")
+        return 1 if r.violations else 0
     if obj.get("kind", "").startswith("mir-"):
         from ..corr import k10, k12
         from ..oracle import srcref
